@@ -214,6 +214,7 @@ def setattr_(I, obj, name, v):
             if fty is not None and not isinstance(fty, TAny):
                 ctx.oblige("fieldtype[%s.%s]" % (ty.cls.name, name), ctx.resolve_ty(fty).inv(sv.t, goal=True), kind="type")
             ctx.store_raw(ctx.ref_id(obj), name, sv.t)
+            ctx.wrote(name, ctx.ref_id(obj))
             key = obj_key(ctx, obj)
             if key in ctx.partial_objs:
                 ctx.present.setdefault(key, set()).add(name)
@@ -228,12 +229,14 @@ def setattr_(I, obj, name, v):
                 if fty is not None and not isinstance(fty, TAny):
                     ctx.oblige("fieldtype[%s.%s]" % (ty.name, name), fty.inv(sv.t, goal=True), kind="type")
                 ctx.store_raw(ctx.ref_id(obj), name, sv.t)
+                ctx.wrote(name, ctx.ref_id(obj))
                 if ty.events:
                     ctx.emit("store", obj, name, sv)
                 return
             raise Unsupported("store to undeclared member %s of abstract %s" % (name, ty.name))
         if isinstance(ty, TExc):
             ctx.store_raw(ctx.ref_id(obj), name, ctx.to_val(v).t)
+            ctx.wrote(name, ctx.ref_id(obj))
             return
         raise Unsupported("attribute store on value of shape %s" % ty.describe())
     if isinstance(obj, Closure):
